@@ -437,6 +437,34 @@ class Ctx:
                 raise BrokenTie("theorem %s depends on axioms outside the allow-list" % name, ", ".join(notallowed))
         if not res["theorems"]:
             raise BrokenTie("no theorems found in Properties/%s.v" % prop_file)
+        if self.tier == "thorough" and not os.environ.get("VERIF_NO_COQCHK"):
+            # second, independent checker over the property's .vo and everything it depends on
+            try:
+                rc, out = sh(["coqchk", "-silent", "-o", "-Q", ".", "RB", "RB.Properties.%s" % prop_file], cwd=COQ, timeout=3000)
+            except subprocess.TimeoutExpired:
+                raise BrokenTie("coqchk timed out on Properties/%s" % prop_file)
+            if rc != 0:
+                raise BrokenTie("coqchk rejects Properties/%s.vo" % prop_file, out[-3000:])
+            ax = []
+            grab = False
+            for line in out.split("\n"):
+                if line.startswith("* Axioms:"):
+                    grab = True
+                    rest = line.split(":", 1)[1].strip()
+                    if rest and rest != "<none>":
+                        ax.append(rest)
+                    continue
+                if grab:
+                    if line.startswith("*"):
+                        grab = False
+                    elif line.strip():
+                        ax.append(line.strip())
+            bad = [a for a in ax if a.split()[0].split(".")[-1] not in AXIOM_ALLOW and a.split()[0] not in AXIOM_ALLOW]
+            self.extra["coqchk"] = {"axioms": ax or "<none>", "ok": not bad}
+            unsafe = [l for l in out.split("\n") if ("type-in-type" in l or "unsafe" in l or "positivity is assumed" in l) and "<none>" not in l]
+            if bad or unsafe:
+                raise BrokenTie("coqchk reports axioms/unsafe features outside the allow-list", "\n".join(bad + unsafe))
+            self.checker_cmd += " ; coqchk -silent -o -Q coq RB RB.Properties.%s" % prop_file
         return res
 
     def try_proof(self, prop_file=None, timeout=1500):
